@@ -8,7 +8,8 @@
 //
 // Robustness on a loaded machine: every script keeps both ends of every busy interval, and the horizon, at least 30 % of
 // a period away from every tick instant; tolerance on times 25 % of a period; periods >= 40 ms; a run that disagrees with
-// the oracle or the by-construction expectation is repeated (up to two more times) before it counts.
+// the oracle or the by-construction expectation is repeated before it counts (once as it is, then up to twice with all
+// times multiplied by 3).
 package main
 
 import (
@@ -335,23 +336,42 @@ func timerMode() string {
 	return mode
 }
 
-// run with up to two repetitions of a run that the oracle rejects
-func runConfirmed(s script) (observed, []failure, int, []string) {
+// scaled returns the same script with every time multiplied by f (same stalls in periods, larger absolute margins)
+func scaled(s script, f int64) script {
+	t := s
+	t.PeriodUs *= f
+	t.Horizon *= f
+	t.Busy = nil
+	for _, be := range s.Busy {
+		t.Busy = append(t.Busy, [2]int64{be[0] * f, be[1] * f})
+	}
+	t.Name = s.Name
+	return t
+}
+
+// A run that the oracle rejects is repeated before it counts: once as it is, then twice with every time of the script
+// multiplied by 3 (period 120-360 ms: wake-up latencies of tens of milliseconds on an overloaded machine stay inside the
+// margins).  The script returned is the one of the last run; a real disagreement does not depend on the scale.
+func runConfirmed(s script) (script, observed, []failure, int, []string) {
 	var o observed
 	var fs []failure
 	var transient []string
-	for attempt := 1; attempt <= 3; attempt++ {
-		o = runScript(s)
+	cur := s
+	for attempt := 1; attempt <= 4; attempt++ {
+		if attempt == 3 {
+			cur = scaled(s, 3)
+		}
+		o = runScript(cur)
 		o.Attempt = attempt
-		fs = judge(s, o)
+		fs = judge(cur, o)
 		if len(fs) == 0 {
-			return o, nil, attempt, transient
+			return cur, o, nil, attempt, transient
 		}
 		raw, _ := json.Marshal(o)
 		transient = append(transient, fmt.Sprintf("attempt %d rejected: %s: %s; observed %s", attempt, fs[0].key, fs[0].what, raw))
 		time.Sleep(50 * time.Millisecond)
 	}
-	return o, fs, 3, transient
+	return cur, o, fs, 4, transient
 }
 
 func main() {
@@ -391,7 +411,8 @@ func main() {
 			wg.Add(1)
 			go func(i int) {
 				defer wg.Done()
-				o, fs, a, tr := runConfirmed(scripts[i])
+				sc, o, fs, a, tr := runConfirmed(scripts[i])
+				scripts[i] = sc
 				results[i] = result{o, fs, a, tr}
 			}(i)
 		}
@@ -456,7 +477,7 @@ const ruleText = "the real time.NewTicker(period) (period 40-120 ms) and a consu
 	"both ends of every busy interval and the horizon stay >= 30 % of a period away from every tick instant, tolerance on times 25 % of a period; " +
 	"oracle without the model: every value within tolerance of a multiple >= 1 of the period, indices strictly increasing, no receive before the tick's instant, never two receives without " +
 	"a tick instant in between, at most one overdue tick per wake-up, and by construction of the script: a tick whose instant lies inside no busy interval arrives at its instant, the first " +
-	"tick inside a busy interval arrives when the interval ends, the other ticks inside it never arrive; a run the oracle rejects is repeated up to two more times before it counts; " +
+	"tick inside a busy interval arrives when the interval ends, the other ticks inside it never arrive; a run the oracle rejects is repeated before it counts: once as it is, then up to twice with all times of the script multiplied by 3; " +
 	"Coq: Model/TickerCheck.v evaluates consumed / dropped of Model/Ticker.v on frees_of_busy of the script and compares delivered indices, times (same tolerance) and lost indices; " +
 	"non-trivial = at least one tick is overdue; distinct by the full script"
 
@@ -473,7 +494,7 @@ func doReplay(path string) int {
 		fmt.Println("replay file carries no case (no failing input was found)")
 		return 2
 	}
-	_, fs, _, _ := runConfirmed(*rp.Replay.Ticker)
+	_, _, fs, _, _ := runConfirmed(*rp.Replay.Ticker)
 	keys := map[string]string{}
 	for _, f := range fs {
 		keys[f.key] = f.what
